@@ -158,6 +158,18 @@ DocOf ==
            [doc |-> Magic \o Str("data_b") \o <<EOL>> \o Str("loop_") \o <<" ">> \o Name(1)
                     \o Flatten([i \in 1..N |-> SlotText(slots[i])]) \o TailText(tail),
             shape |-> "loop", names |-> <<Name(1)>>, packets |-> [i \in 1..N |-> <<SlotVal(slots[i])>>]]
+      \* one-column loops whose consecutive packets are composite values with different members (the parser re-uses one
+      \* value object per column): packet i is the table { 'k<i>': slot i } / the list [ slot i ]
+      [] ctx = "looptable" ->
+           [doc |-> Magic \o Str("data_b") \o <<EOL>> \o Str("loop_") \o <<" ">> \o Name(1)
+                    \o Flatten([i \in 1..N |-> <<EOL, "{", "'">> \o KeyText(i) \o <<"'", ":">> \o SlotText(slots[i])
+                                                \o (IF IsTextField(slots[i].p) THEN <<EOL>> ELSE <<>>) \o <<"}">>]) \o TailText(tail),
+            shape |-> "loop", names |-> <<Name(1)>>, packets |-> [i \in 1..N |-> <<[k |-> "table", e |-> << <<KeyText(i), SlotVal(slots[i])>> >>]>>]]
+      [] ctx = "looplist" ->
+           [doc |-> Magic \o Str("data_b") \o <<EOL>> \o Str("loop_") \o <<" ">> \o Name(1)
+                    \o Flatten([i \in 1..N |-> <<EOL, "[">> \o SlotText(slots[i])
+                                                \o (IF IsTextField(slots[i].p) THEN <<EOL>> ELSE <<>>) \o <<"]">>]) \o TailText(tail),
+            shape |-> "loop", names |-> <<Name(1)>>, packets |-> [i \in 1..N |-> <<[k |-> "list", e |-> <<SlotVal(slots[i])>>]>>]]
       [] ctx = "list" ->
            [doc |-> Magic \o Str("data_b") \o <<EOL>> \o Name(1) \o <<" ", "[">> \o Flatten([i \in 1..N |-> SlotText(slots[i])])
                     \o (IF IsTextField(slots[N].p) THEN <<EOL>> ELSE <<>>) \o <<"]">> \o TailText(tail),
@@ -173,7 +185,7 @@ DocOf ==
             shape |-> "items", items |-> <<[name |-> Name(1), v |-> [k |-> "list", e |-> <<[k |-> "list", e |-> [i \in 1..N |-> SlotVal(slots[i])]], [k |-> "list", e |-> <<>>]>>]]>>]
 
 \* where a separator may be empty: directly after an opening bracket / brace / key colon
-MayBeEmptySep(i) == (ctx \in {"list", "listinlist"} /\ i = 1) \/ ctx = "table"
+MayBeEmptySep(i) == (ctx \in {"list", "listinlist"} /\ i = 1) \/ ctx \in {"table", "looptable", "looplist"}
 \* the previous thing ends a token that needs whitespace after it: anything but an opening delimiter / key colon
 SlotOK(v, p, s, i) ==
     /\ (s = "none" => MayBeEmptySep(i))
